@@ -375,6 +375,19 @@ def gen_next(rng, live, cfg, prev=None, focus=None):
     defined = [c for c in cells if not s.cells[c]._is_derived()]
     derived = [c for c in cells if s.cells[c]._is_derived()]
     own_refs = [r for r in s._own_refs if not s._impl.own_refs[r].is_derived()]
+    if k == "new_space" and cfg.get("nest_names") and rng.random() < 0.5:
+        # deeper trees, and a child may bear the name of one of its ancestors (`A.A`, `A.X.A`; the automatic names
+        # `Space1.Space1` are of this shape): a path in which one name occurs twice
+        parent = rng.choice([p for p in paths if p.count(".") < 2])
+        pool = list(W.CHILD) + [n for n in parent.split(".") if n not in W.CHILD] * 2
+        taken = set(live.space(parent).spaces)
+        free = [n for n in pool if n not in taken]
+        nm = rng.choice(free) if free and rng.random() < 0.9 else rng.choice(pool)
+        cand = [b for b in paths if b != parent and not parent.startswith(b + ".")]
+        bases = rng.sample(cand, min(len(cand), rng.choice([0, 0, 0, 1, 1, 2])))
+        return ["new_space", parent, nm, bases]
+    if k == "rename_space":
+        return gen_rename_space(rng, live, spaces, path)
     if k == "new_space":
         nested = rng.random() < 0.35
         parent = rng.choice([p for p in paths if "." not in p] or ["-"]) if nested else "-"
@@ -473,6 +486,32 @@ def gen_next(rng, live, cfg, prev=None, focus=None):
     return ["new_cells", path, rng.choice(W.CELLS), W.gen_formula(rng, paths, s)]
 
 
+def gen_rename_space(rng, live, spaces, path, pool=None):
+    """`space.rename(name)`: mostly of a NESTED space, mostly one whose path holds a name twice (the renamed
+    component is then not the first of that name) or that gets the name of an ancestor; the new name is free in the
+    parent most of the time, sometimes in use there (a sibling space, a cells or a reference of the parent)"""
+    paths = [p for p, _ in spaces]
+    nested = [p for p in paths if "." in p]
+    twice = [p for p in nested if p.rsplit(".", 1)[1] in p.split(".")[:-1]]
+    r = rng.random()
+    if twice and r < 0.45:
+        path = rng.choice(twice)
+    elif nested and r < 0.85:
+        path = rng.choice(nested)
+    parts = path.split(".")
+    parent = live.space(".".join(parts[:-1])) if len(parts) > 1 else live.m
+    names = list(pool or (W.TOP + W.CHILD))
+    taken = set(parent.spaces) | set(getattr(parent, "cells", ())) | {n for n in parent.refs if not n.startswith("_")}
+    free = [n for n in names if n not in taken]
+    anc = [n for n in parts[:-1] if n not in taken]
+    q = rng.random()
+    if anc and q < 0.4:
+        return ["rename_space", path, rng.choice(anc)]
+    if free and q < 0.9:
+        return ["rename_space", path, rng.choice(free)]
+    return ["rename_space", path, rng.choice(sorted(taken) or names)]
+
+
 def gen_space_formula(rng, live, path, s):
     """a space formula [i, r, c, a] (W.SPACE_TEMPLATES) that mostly resolves: what it reads is a reference
     of the parent (by attribute path), of the namespace (by name), of a child (by path), or a cells"""
@@ -544,6 +583,10 @@ def gen_clash(rng, live, cfg, prev=None, focus=None):
     k = rng.choices(["new_space", "del_space", "new_cells", "set_formula", "del_cells", "rename_cells", "add_bases",
                      "remove_bases", "set_ref", "del_ref", "set_mref", "del_mref"],
                     [2.0, 0.6, 3.0, 1.0, 1.2, 1.0, 2.0, 1.0, 3.5, 0.8, 1.5, 0.5])[0]
+    if cfg.get("clash_rename_space") and rng.random() < cfg["clash_rename_space"]:
+        # renaming of spaces inside the clash alphabet (outside the vocabulary of the mechanism model: only the
+        # properties that do not run the `smech` correspondence ask for it): `X.X`, `A.X.A` are common here
+        return gen_rename_space(rng, live, spaces, path, pool=W.TOP + CLASH)
 
     def some_paths():
         return [rng.choice(paths) for _ in range(rng.choice([1, 1, 1, 2, 2, 3]))]
@@ -705,6 +748,101 @@ def refusal_family():
                                                     "before": ", model-level reference created before"}[glob],
                                 ", an earlier sub space overrides the name" if also else "", k2),
                                 [list(o) for o in ops]))
+    return out
+
+
+# ----------------------------------------------------------------------------- scenario family: renaming spaces
+#
+# `space.rename(name)` rewrites the path of the space and of every space below it - in the containers (the name, the
+# key in the parent) and in the inheritance graph (the node ids).  A path is a LIST of names, and one name may occur in
+# it more than once (`A.A`, `A.X.A`, the automatic `Space1.Space1`); the renamed component is the last one of the
+# renamed space's own path, not "the component that bears the name".  The family enumerates (the path of the renamed
+# space: its name occurs above it or not, below it or not) x (the new name: fresh / the name of another top-level
+# space, where a tree of the same shape exists too / the name of its parent) x (how the renamed tree takes part in
+# inheritance) and follows every rename with edits of the renamed space, of the spaces below it and of the spaces that
+# derive from them, and a rename back.  The oracles are the property's own hooks after every operation.
+
+RENAME_SHAPES = [       # (label, the spaces in creation order, the renamed one)
+    ("name unique in the path", ["A", "A.X", "A.X.Y"], "A.X"),
+    ("parent of the same name", ["A", "A.A", "A.A.Y"], "A.A"),
+    ("grandparent of the same name", ["A", "A.X", "A.X.A", "A.X.A.Y"], "A.X.A"),
+    ("parent and grandparent of the same name", ["A", "A.A", "A.A.A", "A.A.A.Y"], "A.A.A"),
+    ("parent and child of the same name", ["A", "A.A", "A.A.A", "A.A.A.Y"], "A.A"),
+    ("child of the same name", ["A", "A.X", "A.X.X"], "A.X"),
+    ("top-level, child of the same name", ["A", "A.A", "A.A.Y"], "A"),
+]
+
+
+def rename_family():
+    """[(label, ops)]"""
+    out = []
+    for label, tree, target in RENAME_SHAPES:
+        parts = target.split(".")
+        below = [p for p in tree if p.startswith(target + ".")]
+        for new in ("N", "B", "parent", "taken"):
+            if new == "parent":
+                if len(parts) < 2 or parts[-2] == parts[-1]:
+                    continue
+                nm = parts[-2]
+            elif new == "taken":
+                if len(parts) < 2:
+                    continue
+                nm = "f"            # a cells of the parent: the rename is refused and must change nothing
+            else:
+                nm = new
+            renamed = ".".join(parts[:-1] + [nm]) if new != "taken" else target
+
+            def moved(p):
+                return renamed + p[len(target):] if p == target or p.startswith(target + ".") else p
+            for rel in ("alone", "is a base", "child is a base", "has a base", "mirror tree is a base"):
+                if new == "taken" and rel not in ("alone", "is a base"):
+                    continue
+                ops = []
+                for p in tree:
+                    ops.append(["new_space", p.rsplit(".", 1)[0] if "." in p else "-", p.rsplit(".", 1)[-1], []])
+                    ops.append(["new_cells", p, "f", F(0, len(p))])
+                ops.append(["set_ref", target, "r", 4])
+                mirror = []
+                if new == "B" or rel == "mirror tree is a base":
+                    # a tree of the same shape under the top-level space B: every path of the renamed tree exists
+                    # there too with the first name replaced
+                    for p in tree:
+                        q = ".".join(["B"] + p.split(".")[1:])
+                        mirror.append(q)
+                        ops.append(["new_space", q.rsplit(".", 1)[0] if "." in q else "-", q.rsplit(".", 1)[-1], []])
+                        ops.append(["new_cells", q, "g", F(0, 7)])
+                        ops.append(["new_cells", q, "h", F(0, 8)])
+                if new == "B" and len(parts) == 1:
+                    continue        # the new name is taken at the top level: the refusal is covered by `parent`
+                if rel == "is a base":
+                    ops += [["new_space", "-", "S", [target]], ["set_ref", "S", "x", 1]]
+                elif rel == "child is a base":
+                    if not below:
+                        continue
+                    ops += [["new_space", "-", "S", [below[0]]], ["set_ref", "S", "x", 1]]
+                elif rel == "has a base":
+                    ops += [["new_space", "-", "D", []], ["new_cells", "D", "k", F(0, 3)], ["add_bases", target, ["D"]]]
+                elif rel == "mirror tree is a base":
+                    m = mirror[len(parts) - 1] if len(mirror) >= len(parts) else None
+                    if m is None or m == target:
+                        continue
+                    # a sub space of the mirror of the renamed space with an own REFERENCE named like a cells of the
+                    # renamed space
+                    ops += [["new_space", "-", "T", [m]], ["set_ref", "T", "f", 1]]
+                ops.append(["evalall"])
+                ops.append(["rename_space", target, nm])
+                follow = [["new_cells", renamed, "p", F(0, 2)], ["set_ref", renamed, "s", 5]]
+                for b in below[:2]:
+                    follow += [["new_cells", moved(b), "q", F(0, 3)], ["del_cells", moved(b), "f"]]
+                if rel == "is a base" or rel == "child is a base":
+                    follow += [["new_cells", "S", "w", F(0, 1)], ["remove_bases", "S", [moved(below[0] if rel == "child is a base" else target)]]]
+                if rel == "has a base":
+                    follow += [["new_cells", "D", "j", F(0, 4)], ["del_cells", "D", "k"]]
+                for q in mirror:
+                    follow += [["del_cells", q, "g"]]
+                follow += [["new_space", renamed, "Z", []], ["evalall"], ["rename_space", renamed, parts[-1]],
+                           ["new_cells", target, "u", F(0, 6)], ["del_space", target]]
+                out.append(("%s: %s renamed to %s, %s" % (label, target, nm, rel), [list(o) for o in ops + follow]))
     return out
 
 
